@@ -5,6 +5,7 @@
 //! Exit codes: 0 property held on everything explored; 1 violation; 2 harness error.
 
 mod byz;
+mod deep;
 mod deliveries;
 mod determinism;
 mod entropy;
@@ -33,6 +34,9 @@ fn seed_from_env() -> u64 {
 
 fn main() {
     guard::install_hook();
+    if cfg!(feature = "deep") {
+        deep::init();
+    }
     let args: Vec<String> = std::env::args().collect();
     if args.len() < 2 {
         eprintln!("usage: falcon-sim check <ID> <quick|thorough> | replay <file> | selftest");
@@ -50,6 +54,12 @@ fn main() {
         "c08-child" => props::c08::child_main(&args[2..]),
         "c15-child" => props::c15::child_main(&args[2..]),
         "det-child" => determinism::child_main(&args[2..]),
+        "deepruns" => {
+            // deepruns C01 <tier> <seed> <outfile>
+            let tier = if args.get(3).map(|s| s == "thorough").unwrap_or(false) { Tier::Thorough } else { Tier::Quick };
+            let seed: u64 = args.get(4).and_then(|s| s.parse().ok()).unwrap_or(report::DEFAULT_SEED);
+            props::c01::deepruns_main(tier, seed, args.get(5).map(|s| s.as_str()).unwrap_or("/dev/null"))
+        }
         "determinism" => {
             // determinism [quick|thorough] [samples] [ids...]
             let tier = if args.get(2).map(|s| s == "thorough").unwrap_or(false) { Tier::Thorough } else { Tier::Quick };
@@ -93,6 +103,19 @@ fn main() {
                 }
             };
             let prop = doc.get("property").and_then(|p| p.as_str()).unwrap_or("");
+            if doc.get("deep").and_then(|d| d.as_bool()) == Some(true) && !cfg!(feature = "deep") {
+                // this plan needs the instrumented build: hand over
+                match std::env::var("VERIF_DEEP_BIN").ok().filter(|p| std::path::Path::new(p).exists()) {
+                    Some(bin) => {
+                        let st = std::process::Command::new(bin).args(["replay", &args[2]]).status();
+                        std::process::exit(st.ok().and_then(|s| s.code()).unwrap_or(2));
+                    }
+                    None => {
+                        eprintln!("replay: this file needs the instrumented (deep) build; run it through ./check replay");
+                        std::process::exit(2);
+                    }
+                }
+            }
             let r = match props::replay(prop, &doc) {
                 Some(r) => r,
                 None => {
